@@ -133,11 +133,15 @@ Definition sv_no_multi_driver (F : file) (m : module) : bool := pairwise_disjoin
 Definition sv_all_driven (F : file) (m : module) : bool := forallb (var_driven (drivers F m)) (mod_vars m).
 Definition sv_single_driver (F : file) (m : module) : bool := sv_no_multi_driver F m && sv_all_driven F m.
 
-(* diagnostics for the harness: pairs of drivers that collide, variables with an undriven bit *)
-Fixpoint collisions (ds : list driver) : list (dkind * dkind) :=
+(* diagnostics for the harness: pairs of drivers that collide (with one variable they share), variables with an undriven bit *)
+Definition first_overlap (f g : list ivl) : option ident :=
+  match find (fun a => existsb (ivl_overlap a) g) f with Some a => Some (iv_var a) | None => None end.
+Fixpoint collisions (ds : list driver) : list (dkind * dkind * ident) :=
   match ds with
   | [] => []
-  | d :: r => map (fun d' => (fst d, fst d')) (filter (fun d' => negb (fp_disjoint (snd d) (snd d'))) r) ++ collisions r
+  | d :: r =>
+      flat_map (fun d' => match first_overlap (snd d) (snd d') with Some x => [(fst d, fst d', x)] | None => [] end) r
+      ++ collisions r
   end.
 Definition undriven (F : file) (m : module) : list ident :=
   map d_id (filter (fun dc => negb (var_driven (drivers F m) dc)) (mod_vars m)).
